@@ -204,6 +204,64 @@ namespace C13
       the_system_level.matrix_sys.apply(y, u, w, -0.5);
       dump_vec("w_minus_half_A_u", y.local(), kx, ky);
     }
+    // ---- grid transfer across every level pair of the (possibly multi-layered) hierarchy: restriction of a
+    //      key-valued fine vector and prolongation of a key-valued coarse vector, logged per level with that level's
+    //      DOF keys; processes that do not hold the coarse level take part through rest_send / prol_recv
+    for(Index i = 0; (i < domain.size_physical()) && ((i + 1) < domain.size_virtual()); ++i)
+    {
+      SystemLevelType& lvl_f = *system_levels.at(i);
+      const int lev_f = domain.at(i)->get_level_index();
+      LocalVector fx, fy;
+      {
+        auto fxx = Analytic::create_lambda_function_scalar_2d([](double x, double) { return x; });
+        auto fyy = Analytic::create_lambda_function_scalar_2d([](double, double y) { return y; });
+        Assembly::Interpolator::project(fx, fxx, domain.at(i)->space);
+        Assembly::Interpolator::project(fy, fyy, domain.at(i)->space);
+      }
+      {
+        // the fine interpolant of the coarse-space function used below (expected result of its prolongation)
+        LocalVector lin;
+        auto fl = Analytic::create_lambda_function_scalar_2d([](double x, double y) { return 1.0 + 2.0 * x - y; });
+        Assembly::Interpolator::project(lin, fl, domain.at(i)->space);
+        dump_vec((String("lin_interp_L") + stringify(lev_f)).c_str(), lin, fx, fy);
+      }
+      GlobalSystemVector d_f = lvl_f.matrix_sys.create_vector_r();
+      GlobalSystemVector p_f = lvl_f.matrix_sys.create_vector_r();
+      for(Index k = 0; k < fx.size(); ++k) d_f.local()(k, key_value(fx(k), fy(k), data_seed + 1000u + std::uint64_t(lev_f)));
+      g_phase = "transfer";
+      if((i + 1) < domain.size_physical())
+      {
+        SystemLevelType& lvl_c = *system_levels.at(i + 1);
+        const int lev_c = domain.at(i + 1)->get_level_index();
+        LocalVector cx, cy;
+        {
+          auto fxx = Analytic::create_lambda_function_scalar_2d([](double x, double) { return x; });
+          auto fyy = Analytic::create_lambda_function_scalar_2d([](double, double y) { return y; });
+          Assembly::Interpolator::project(cx, fxx, domain.at(i + 1)->space);
+          Assembly::Interpolator::project(cy, fyy, domain.at(i + 1)->space);
+        }
+        GlobalSystemVector r_c = lvl_c.matrix_sys.create_vector_r();
+        GlobalSystemVector v_c = lvl_c.matrix_sys.create_vector_r();
+        lvl_f.transfer_sys.rest(d_f, r_c);
+        dump_vec((String("rest_to_L") + stringify(lev_c)).c_str(), r_c.local(), cx, cy);
+        // coarse vector: a function of the coarse space (1 + 2x - y) plus key-valued noise
+        for(Index k = 0; k < cx.size(); ++k) v_c.local()(k, 1.0 + 2.0 * cx(k) - cy(k));
+        lvl_f.transfer_sys.prol(p_f, v_c);
+        dump_vec((String("prol_lin_to_L") + stringify(lev_f)).c_str(), p_f.local(), fx, fy);
+        for(Index k = 0; k < cx.size(); ++k) v_c.local()(k, key_value(cx(k), cy(k), data_seed + 2000u + std::uint64_t(lev_c)));
+        lvl_f.transfer_sys.prol(p_f, v_c);
+        dump_vec((String("prol_rnd_to_L") + stringify(lev_f)).c_str(), p_f.local(), fx, fy);
+      }
+      else
+      {
+        lvl_f.transfer_sys.rest_send(d_f);
+        lvl_f.transfer_sys.prol_recv(p_f);
+        dump_vec((String("prol_lin_to_L") + stringify(lev_f)).c_str(), p_f.local(), fx, fy);
+        lvl_f.transfer_sys.prol_recv(p_f);
+        dump_vec((String("prol_rnd_to_L") + stringify(lev_f)).c_str(), p_f.local(), fx, fy);
+      }
+    }
+
     // ---- discretise and solve
     GlobalSystemVector vec_sol = the_system_level.matrix_sys.create_vector_r();
     GlobalSystemVector vec_rhs = the_system_level.matrix_sys.create_vector_r();
